@@ -70,12 +70,23 @@ where
     pub(super) fn op_mpverify(&mut self) -> Result<(), ExecutionError> {
         // read node value, depth, index and root value from the stack
         let node = [self.stack.get(3), self.stack.get(2), self.stack.get(1), self.stack.get(0)];
+        let depth = self.stack.get(4);
         let index = self.stack.get(5);
         let root = [self.stack.get(9), self.stack.get(8), self.stack.get(7), self.stack.get(6)];
 
         // get a Merkle path from the advice provider for the specified root and node index.
         // the path is expected to be of the specified depth.
         let path = self.host.borrow_mut().get_adv_merkle_path(self)?;
+
+        // the path comes from the (untrusted) advice provider: a path of a different length
+        // proves the membership of the node at a different depth of the tree
+        if path.len() as u64 != depth.as_int() {
+            return Err(ExecutionError::MerklePathVerificationFailed {
+                value: node,
+                index,
+                root: root.into(),
+            });
+        }
 
         // use hasher to compute the Merkle root of the path
         let (addr, computed_root) = self.chiplets.build_merkle_root(node, &path, index);
